@@ -103,6 +103,8 @@ struct CurlAsyncRequest_st {
 	size_t cap;
 	/* Request context. */
 	KSI_AsyncHandle *reqCtx;
+	/* Id of the request at the time it was handed to curl (a handle that is added again gets a new id). */
+	KSI_uint64_t reqId;
 };
 
 static void CurlAsyncRequest_free(CurlAsyncRequest *t) {
@@ -374,6 +376,7 @@ static int dispatch(HttpAsyncCtx *clientCtx) {
 				}
 				/* Keep a reference to the request for handling error response. */
 				curlRequest->reqCtx = KSI_AsyncHandle_ref(req);
+				curlRequest->reqId = req->id;
 
 				/* Setup curl easy handle. */
 				curl_easy_setopt(curlRequest->easyHandle, CURLOPT_VERBOSE, 0);
@@ -469,7 +472,12 @@ static int dispatch(HttpAsyncCtx *clientCtx) {
 			KSI_AsyncHandle *handle = NULL;
 
 			handle = curlResponse->reqCtx;
-			if (curlMsg->data.result != CURLE_OK) {
+			if (handle->state != KSI_ASYNC_STATE_WAITING_FOR_RESPONSE || handle->id != curlResponse->reqId) {
+				/* The request of this transfer has been returned to the caller already (e.g. on receive timeout) and
+				 * has possibly been added again: the outcome of the old transfer does not concern the handle any more. */
+				KSI_LOG_debug(clientCtx->ctx, "[%p] Async Curl HTTP: [%p] transfer of an already finalized request completed.",
+						clientCtx, curlResponse);
+			} else if (curlMsg->data.result != CURLE_OK) {
 				size_t len = strlen(curlResponse->errMsg);
 				KSI_LOG_error(clientCtx->ctx, "[%p] Async Curl HTTP: error result %d (%s).",
 						clientCtx, curlMsg->data.result, curlResponse->errMsg);
